@@ -282,14 +282,14 @@ impl<D: ReadXml> DataReply<D> {
         ensures
             res is Ok ==> final(reader).remaining@.len() <= old(reader).remaining@.len(),
             res is Ok ==> is_prefix(old(reader).log@, final(reader).log@),
-            res is Ok ==> data_reply_read_post(seg_of(old(reader).log@, final(reader).log@), res),    // OBL:C08.data_reply.read
+            res is Ok ==> data_reply_read_post(seg_of(old(reader).log@, final(reader).log@), res),    // OBL:C08+C04.data_reply.read
 //@loop 1
             invariant
                 is_prefix(old(reader).log@, reader.log@),
                 reader.remaining@.len() <= old(reader).remaining@.len(),
-                errors@ =~= errors_of(seg_of(old(reader).log@, reader.log@)),             // OBL:C08.data_reply.errors_exact_in_order
-                all_parsed(seg_of(old(reader).log@, reader.log@)),                        // OBL:C08.data_reply.no_error_skipped
-                this is Some ==> (this matches Some(DataReply::Data(_)) && has_data(seg_of(old(reader).log@, reader.log@)) && errors@.len() == 0), // OBL:C08.data_reply.data_only_without_errors
+                errors@ =~= errors_of(seg_of(old(reader).log@, reader.log@)),             // OBL:C08+C04.data_reply.errors_exact_in_order
+                all_parsed(seg_of(old(reader).log@, reader.log@)),                        // OBL:C08+C04.data_reply.no_error_skipped
+                this is Some ==> (this matches Some(DataReply::Data(_)) && has_data(seg_of(old(reader).log@, reader.log@)) && errors@.len() == 0), // OBL:C08+C04.data_reply.data_only_without_errors
             decreases reader.remaining@.len(),                                            // OBL:C14.data_reply.terminates
 //@end
 }
@@ -297,14 +297,14 @@ impl<D> DataReply<D> {
 //@extract id=data_reply_into_result file=netconf/src/message/rpc/mod.rs impl=/impl<D> IntoResult for DataReply<D>/ fn=into_result rules=R1,R2 vis=pub
 //@sig pub fn into_result(self) -> (res: Result<D, crate::Error>)
 //@contract
-        ensures match self { DataReply::Data(d) => res == Ok::<D, crate::Error>(d), DataReply::Errs(errs) => res == Err::<D, crate::Error>(crate::Error::RpcError(errs)) },  // OBL:C08.data_reply.into_result
+        ensures match self { DataReply::Data(d) => res == Ok::<D, crate::Error>(d), DataReply::Errs(errs) => res == Err::<D, crate::Error>(crate::Error::RpcError(errs)) },  // OBL:C08+C04.data_reply.into_result
 //@end
 }
 pub proof fn lemma_c08_data_reply<D>(seg: Seq<Item>, reply: DataReply<D>, r: Result<D, crate::Error>)
     requires
         data_reply_read_post(seg, Ok(reply)),
         match reply { DataReply::Data(d) => r == Ok::<D, crate::Error>(d), DataReply::Errs(errs) => r == Err::<D, crate::Error>(crate::Error::RpcError(errs)) },
-    ensures c08(seg, has_data(seg), r),                                                  // OBL:C08.data_reply.property
+    ensures c08(seg, has_data(seg), r),                                                  // OBL:C08+C04.data_reply.property
 {
 }
 
